@@ -82,6 +82,12 @@ fn run_server_side(ctx: &RunCtx) -> RunOut {
             n.raw_open((i as u64) << 2);
         }
     }
+    // slow requests: the peer withholds the end of the body until the first judgement has been made, so that
+    // a request stays in progress while shutdown calls and later arrivals are handled
+    let slow: Vec<bool> = (0..k).map(|_| draw(4) == 3).collect();
+    if slow.iter().any(|s| *s) {
+        obs::count("probe.request_in_progress_across_shutdown");
+    }
     let rec: Rc<RefCell<SrvRec>> = Default::default();
     let mut ex = Exec::new();
     ex.max_steps = 60_000;
@@ -89,6 +95,7 @@ fn run_server_side(ctx: &RunCtx) -> RunOut {
     {
         let net = net.clone();
         let order = order.clone();
+        let slow = slow.clone();
         ex.spawn("peer", async move {
             for i in order {
                 let id = (i as u64) << 2;
@@ -99,8 +106,12 @@ fn run_server_side(ctx: &RunCtx) -> RunOut {
                 let mut b = headers_frame(&request_fields("GET", "/c08"));
                 b.extend(frames::frame(frames::DATA, b"hello"));
                 let mut n = net.lock().unwrap();
-                n.raw_write(id, CLIENT, &b);
-                n.raw_fin(id, CLIENT);
+                if slow[i] {
+                    n.raw_write(id, CLIENT, &b[..b.len() - 3]);
+                } else {
+                    n.raw_write(id, CLIENT, &b);
+                    n.raw_fin(id, CLIENT);
+                }
             }
         });
     }
@@ -180,6 +191,8 @@ fn run_server_side(ctx: &RunCtx) -> RunOut {
             }
         });
     }
+    for phase in 0..2 {
+    let last_phase = phase == 1 || !slow.iter().any(|x| *x);
     let stop = ex.run(&mut NetWorld(net.clone()));
     if let Some(p) = &ex.panic {
         if p.in_harness() {
@@ -193,7 +206,7 @@ fn run_server_side(ctx: &RunCtx) -> RunOut {
     let r = rec.borrow();
     let n = net.lock().unwrap();
     obs::note(|| format!("arrival order {:?} in_order_accept={in_order}; history {:?}; served {:?}", order, r.hist, r.served));
-    let mk = |rule: &str, d: String| RunOut::fail(Violation::new(rule, format!("{d}; history {:?}", r.hist)).fact("side", "server"));
+    let mk = |rule: &str, d: String| RunOut::fail(Violation::new(rule, format!("{d}; history {:?}; requests whose end is withheld until the second phase {:?}; phase {phase}", r.hist, slow)).fact("side", "server"));
     if let Some(e) = &r.build_err {
         return mk("C08.setup_failed", e.clone());
     }
@@ -262,9 +275,23 @@ fn run_server_side(ctx: &RunCtx) -> RunOut {
                 _ => return mk("C08.rejected_below_goaway", format!("stream {id} was rejected although it is below every GOAWAY identifier sent ({:?})", wire)),
             }
         }
-        if was_shown && !r.served.contains(&id) {
+        if was_shown && !r.served.contains(&id) && (last_phase || !slow[i]) {
             return mk("C08.accepted_request_not_served", format!("stream {id} was accepted but could not be served to completion"));
         }
+    }
+    if !last_phase {
+        // second phase: the peer completes the requests it had left open
+        drop(r);
+        let mut nn = n;
+        let b = frames::frame(frames::DATA, b"hello");
+        for i in 0..k {
+            if slow[i] {
+                let id = (i as u64) << 2;
+                nn.raw_write(id, CLIENT, &b[b.len() - 3..]);
+                nn.raw_fin(id, CLIENT);
+            }
+        }
+        continue;
     }
     if !wire.is_empty() {
         obs::count("probe.goaway_sent");
@@ -279,7 +306,9 @@ fn run_server_side(ctx: &RunCtx) -> RunOut {
     if ctx.want_sample {
         out.sample = Some(json!({"side": "server", "requests": k, "peer_write_order": order, "in_order_accept": in_order, "history": format!("{:?}", r.hist), "goaways_on_wire": wire, "served": r.served}));
     }
-    out
+    return out;
+    }
+    unreachable!()
 }
 
 trait MapFact {
